@@ -1272,6 +1272,13 @@ impl Drop for Popen {
     // detach().
     fn drop(&mut self) {
         if let (false, &Running { .. }) = (self.detached, &self.child_state) {
+            // Release our ends of the pipes before waiting.  Nobody can use
+            // them any more, and a child that is waiting for end-of-file on
+            // its stdin, or is blocked writing output that will never be
+            // read, would otherwise never exit and the wait would hang.
+            self.stdin.take();
+            self.stdout.take();
+            self.stderr.take();
             // Should we log error if one occurs during drop()?
             self.wait().ok();
         }
